@@ -2,8 +2,9 @@ CONSTANTS
   Lens = {80, 256}
   Kinds = {"plain"}
   MaxAddrs = 3
-  RecBudget = 333
-  StaleLenByte = FALSE
+  RecBudget = 331
+  HdrBudget = 104
+  QuoteBug = FALSE
   Truncate = TRUE
 INIT Init
 NEXT Next
